@@ -26,7 +26,7 @@ TREE_ASSUME = [
 PLANS = {
     'C06': {
         'quick': [tree('S3', 3, 1, 2, '{1}', 'S', 'S'), tree('K3', 3, 2, 2, '{1}', 'K', 'K'), tree('KB3', 3, 4, 2, '{1}', 'K', 'KB'),
-                  tree('RS4', 4, 1, 2, '{1}', 'S', 'RS')],
+                  tree('RS4', 4, 1, 2, '{1}', 'S', 'RS'), tree('KL3', 3, 6, 2, '{1}', 'K', 'KB')],
         'thorough': [tree('S4', 4, 1, 2, '{1}', 'S', 'S'), tree('K3', 3, 2, 2, '{1}', 'K', 'K'),
                      tree('R3', 3, 1, 2, '{1}', 'R', 'R')],
         'rule': 'every transition (state, public call, arguments) of the reachable state graph of Tree.tla within the bounds, '
@@ -55,7 +55,7 @@ PLANS['C07'] = {
     'level_note': TREE_NOTE,
 }
 PLANS['C08'] = {
-    'quick': [tree('F3', 3, 1, 2, '{1}', 'R', 'F', maxfail=9), tree('DF5', 5, 1, 1, '{1}', 'SA', 'DF', maxfail=9)],
+    'quick': [tree('F3', 3, 1, 2, '{1}', 'R', 'F', maxfail=9), tree('DF5', 5, 1, 1, '{1}', 'SA', 'DF', maxfail=9), tree('SV2', 2, 1, 4, '{1}', 'Str', 'SV', maxfail=3)],
     'thorough': [tree('F3', 3, 1, 2, '{1}', 'R', 'F', maxfail=9), tree('DF5', 5, 1, 1, '{1}', 'SA', 'DF', maxfail=9),
                  tree('F3asan', 3, 1, 2, '{1}', 'R', 'F', maxfail=9, flavour='asan')],
     'rule': TREE_RULE, 'assumptions': TREE_ASSUME,
@@ -86,8 +86,8 @@ def cmp_run(name, tier):
     return {'name': name, 'module': 'MC_Compare', 'mode': 'cmp', 'invariants': ['Reflexive'],
             'constants': {'Tier': '"%s"' % tier, 'Emit': 'TRUE'}, 'timeout': 3000}
 PLANS['C12'] = {
-    'quick': [cmp_run('pairsQ', 'quick')],
-    'thorough': [cmp_run('pairsT', 'thorough')],
+    'quick': [cmp_run('pairsQ', 'quick'), cmp_run('pairsBig', 'big')],
+    'thorough': [cmp_run('pairsT', 'thorough'), cmp_run('pairsBig', 'big')],
     'rule': 'all ordered pairs (a, b, case flag) over a finite universe of values (all scalars incl. boundary numbers, all containers of width <= 2 '
             'over them with keys a/A/b, nested containers in thorough); non-trivial = every pair (each is compared in both orders and with ownership flags toggled); distinct by construction',
     'assumptions': ['objects have distinct keys (distinct after case folding when comparing case-insensitively), as the property states',
@@ -108,11 +108,15 @@ def parse_runs(tier):
         return [parse_run('tok7', 'tok', 7, 4, flavour='limits'), parse_run('nest9', 'nest', 9, 4, flavour='limits'),
                 parse_run('str3', 'str', 3, 1000), parse_run('num6', 'num', 6, 1000),
                 parse_run('lit5', 'lit', 5, 1000), parse_run('ws4', 'ws', 4, 1000), parse_run('long4', 'long', 4, 1000),
-                parse_run('edit5', 'tok', 5, 1000, edits=True)]
+                parse_run('edit5', 'tok', 5, 1000, edits=True),
+                parse_run('bigq', 'bigq', 0, 1000), parse_run('allbytes', 'allbytes', 0, 1000),
+                parse_run('longasan', 'long', 4, 1000, flavour='asan'), parse_run('bigqasan', 'bigq', 0, 1000, flavour='asan')]
     return [parse_run('tok9', 'tok', 9, 4, flavour='limits'), parse_run('nest11', 'nest', 11, 4, flavour='limits'),
             parse_run('str4', 'str', 4, 1000, timeout=5000), parse_run('num8', 'num', 8, 1000),
             parse_run('lit6', 'lit', 6, 1000), parse_run('ws6', 'ws', 6, 1000), parse_run('long6', 'long', 6, 1000),
-            parse_run('edit7', 'tok', 7, 1000, edits=True, timeout=5000), parse_run('tok7plain', 'tok', 7, 1000)]
+            parse_run('edit7', 'tok', 7, 1000, edits=True, timeout=5000), parse_run('tok7plain', 'tok', 7, 1000),
+            parse_run('big', 'big', 0, 1000), parse_run('allbytes', 'allbytes', 0, 1000),
+            parse_run('longasan', 'long', 6, 1000, flavour='asan'), parse_run('bigasan', 'big', 0, 1000, flavour='asan'), parse_run('str3asan', 'str', 3, 1000, flavour='asan')]
 
 PARSE_RULE = ('byte strings grown unit by unit (bytes or tokens) from every still-viable prefix, so the set is closed under truncation; universes: token '
               'sequences, string-literal units (every escape, boundary \\u code points, surrogates, bad hex), number characters, literal letters, BOM/whitespace '
@@ -145,11 +149,12 @@ PRINT_RULE = ('every tree of a finite universe (all scalars incl. boundary numbe
 PRINT_ASSUME = ['number texts come from the catalogue generated with Python\'s correctly rounded formatting; the catalogue generator asserts read-back within DBL_EPSILON, exactness of integers below 10^15 and the print/parse fixed point for every catalogue number',
                 'writes outside a caller buffer are observed with an inaccessible page after it and a canary area before it']
 PRINT_NOTE = 'bounded tree universe and number catalogue; TLC, the driver and the catalogue generator are trusted; a text that differs from the predicted bytes is judged by round trip in the driver and is recorded for validation by the TLA+ grammar'
-def print_plan(what, tech, fail=False):
-    return {'quick': [print_run('printQ', 'quick', failinject=fail)], 'thorough': [print_run('printT', 'thorough', failinject=fail), print_run('printQasan', 'quick', flavour='asan', failinject=fail)],
+def print_plan(what, tech, fail=False, huge=False):
+    return {'quick': [print_run('printQ', 'quick', failinject=fail), print_run('printBig', 'big', failinject=fail)] + ([print_run('printHuge', 'huge')] if huge else []),
+            'thorough': [print_run('printT', 'thorough', failinject=fail), print_run('printBig', 'big', failinject=fail), print_run('printHuge', 'huge'), print_run('printQasan', 'quick', flavour='asan', failinject=fail), print_run('printBigasan', 'big', flavour='asan', failinject=fail)],
             'rule': PRINT_RULE, 'assumptions': PRINT_ASSUME, 'technique': tech, 'level_text': what, 'level_note': PRINT_NOTE}
 PLANS['C04'] = print_plan('TLC proves for every tree x format x entry point x initial buffer size x growth strategy that the buffer machine yields Render(v), that Render(v) is an RFC text denoting v (so it parses back to v), and the real library is run over the same product: texts compared byte for byte, re-parsed, re-printed (fixed point), across allocator configurations.',
-                          'TLC checks the printbuffer step machine (ensure/growth/update_offset, all entry points, all prebuffers, realloc or not) against declarative Render and the RFC grammar; real texts compared with the prediction, re-parsed and re-printed')
+                          'TLC checks the printbuffer step machine (ensure/growth/update_offset, all entry points, all prebuffers, realloc or not) against declarative Render and the RFC grammar; real texts compared with the prediction, re-parsed and re-printed', huge=True)
 PLANS['C05'] = print_plan('Strictness and agreement of variants are proven by TLC on Render(v) with the declarative RFC 8259 grammar (the independent strict parser) and StripWs; the real print functions must return exactly those bytes from every variant, and any other bytes are validated by the TLA+ grammar.',
                           'TLC proves Render(v) is one RFC 8259 text denoting v and StripWs(formatted) = unformatted; every real print variant must return the predicted bytes (differences validated by the TLA+ grammar), variants compared with each other')
 PLANS['C09'] = print_plan('TLC runs the buffer machine with noalloc for every tree, format and n in 0..len+8 and proves that no write reaches index n, that success implies the complete terminated text, that the success threshold lies in [len+1, len+6] and is monotone; the real call is made for every n in 0..len+16 on a buffer ending at an inaccessible page.',
@@ -171,8 +176,8 @@ def min_run(name, U, maxlen):
     return {'name': name, 'module': 'MC_Minify', 'mode': 'minify', 'view': 'View', 'invariants': ['InvCase'],
             'constants': {'U': '"%s"' % U, 'MaxLen': maxlen, 'Emit': 'TRUE', 'MaxDepth': 1000}, 'timeout': 3000}
 PLANS['C13'] = {
-    'quick': [min_run('bytes6', 'bytes', 6), min_run('tok4', 'tok', 4)],
-    'thorough': [min_run('bytes8', 'bytes', 8), min_run('tok5', 'tok', 5)],
+    'quick': [min_run('bytes6', 'bytes', 6), min_run('tok4', 'tok', 4), min_run('big', 'big', 0)],
+    'thorough': [min_run('bytes8', 'bytes', 8), min_run('tok5', 'tok', 5), min_run('big', 'big', 0)],
     'rule': 'ALL strings up to the length bound over {space, newline, /, *, quote, backslash, a} (safety, and value preservation where the string is JSON with comments) and all sequences of tokens '
             '(brackets, comma, number, string literals with escaped quote / escaped backslash / blank / comment opener inside, comment openers and closers incl. /*/); non-trivial = every case; distinct by construction',
     'assumptions': ['accesses beyond the terminator are observed by placing the terminator on the last accessible byte; writes before the buffer by a canary area'],
@@ -184,7 +189,7 @@ PLANS['C13'] = {
 PLANS['C14'] = {
     'quick': [{'name': 'hooks', 'module': 'Hooks', 'mode': 'hooks', 'invariants': ['NoLibc', 'ReallocOnlyDefault', 'Counterpart', 'Routed', 'Restores'],
                'constants': {'MaxHeld': 2, 'Emit': 'TRUE'}, 'timeout': 600},
-              print_run('printQ14', 'quick', failinject=True)],
+              print_run('printQ14', 'quick', failinject=True), parse_run('bigq14', 'bigq', 0, 1000)],
     'thorough': [{'name': 'hooks', 'module': 'Hooks', 'mode': 'hooks', 'invariants': ['NoLibc', 'ReallocOnlyDefault', 'Counterpart', 'Routed', 'Restores'],
                   'constants': {'MaxHeld': 3, 'Emit': 'TRUE'}, 'timeout': 600},
                  print_run('printT14', 'thorough', failinject=True), tree('O3h', 3, 1, 2, '{1}', 'O', 'O')],
@@ -208,6 +213,24 @@ def patch_run(name, mode, tier, record=False):
     return r
 UTIL_ASSUME = ['objects have distinct keys, as the properties state', 'number values are catalogue ids (two distinct numbers suffice for these properties)']
 UTIL_NOTE = 'bounded document/patch universes; the RFC evaluators of Pointer.tla / Patch.tla are the oracle; TLC and the driver are trusted'
+
+# C07 quantifies over histories of ALL public calls: the utilities must balance the allocator too
+def big_run(name, mode):
+    r = {'name': name, 'module': 'MC_Big', 'mode': 'utils', 'constants': {'Mode': '"%s"' % mode, 'Emit': 'TRUE'}, 'timeout': 3000}
+    if mode == 'sort':
+        r['drvargs'] = '--record {outdir}/%s.records.ndjson' % name
+        r['post'] = 'utilcheck'
+    return r
+def _c07_utils():
+    PLANS['C07']['quick'] = PLANS['C07']['quick'] + [patch_run('pairs07', 'pairs', 'thorough'), patch_run('apply07', 'apply', 'thorough'), patch_run('merge07', 'merge', 'thorough')]
+    PLANS['C07']['thorough'] = PLANS['C07']['thorough'] + [patch_run('pairs07', 'pairs', 'deep'), patch_run('apply07', 'apply', 'deep'), patch_run('merge07', 'merge', 'deep')]
+    PLANS['C07']['rule'] += '; plus every patch application, merge and patch generation of the utility universes under the census allocator'
+_c07_utils()
+# beyond the small scopes: deep / wide trees for Duplicate, long member lists for sorting (MC_Big.tla)
+PLANS['C11']['quick'] = PLANS['C11']['quick'] + [big_run('dupbig', 'dup')]
+PLANS['C11']['thorough'] = PLANS['C11']['thorough'] + [big_run('dupbig', 'dup'), {**big_run('dupbigasan', 'dup'), 'flavour': 'asan'}]
+PLANS['C19']['quick'] = PLANS['C19']['quick'] + [big_run('sortbig', 'sort')]
+PLANS['C19']['thorough'] = PLANS['C19']['thorough'] + [big_run('sortbig', 'sort')]
 PLANS['C15'] = {
     'quick': [ptr_run('ptr5', 5)], 'thorough': [ptr_run('ptr6', 6)],
     'rule': 'documents with keys "", a, A, /, ~, 0, 1, 01, a/b, m~n, ~1, -, nested arrays (one of 12 elements) x ALL pointer strings up to the length bound over {/ ~ 0 1 2 a A -} plus long-index and escaped pointers; all (document, node) pairs for construction; non-trivial = every case; distinct by construction',
@@ -280,7 +303,7 @@ def textcheck(prop, path, outdir, V):
     open(cfg, 'w').write('CONSTANTS\n MaxDepth = 1000\nINIT Init\nNEXT Next\nINVARIANTS Judge\nCHECK_DEADLOCK FALSE\n')
     md = os.path.join(outdir, 'md-textcheck')
     env = dict(os.environ); env['DRIFT'] = path
-    r = subprocess.run('cd %s/spec && timeout 1200 tlc -workers 1 -metadir %s -config %s MC_TextCheck.tla 2>&1' % (V, md, cfg), shell=True, env=env, capture_output=True, text=True)
+    r = subprocess.run('cd %s/spec && timeout 1200 ../tools/tlc.sh -workers 1 -metadir %s -config %s MC_TextCheck.tla 2>&1' % (V, md, cfg), shell=True, env=env, capture_output=True, text=True)
     shutil.rmtree(md, ignore_errors=True)
     out, n = [], 0
     for m in re.finditer(r'<<"V", (\d+), (TRUE|FALSE)>>', r.stdout):
@@ -308,7 +331,7 @@ def utilcheck(prop, path, outdir, V):
     open(cfg, 'w').write('INIT Init\nNEXT Next\nINVARIANTS Judge\nCHECK_DEADLOCK FALSE\n')
     md = os.path.join(outdir, 'md-utilcheck')
     env = dict(os.environ); env['RECORDS'] = path
-    r = subprocess.run('cd %s/spec && timeout 2400 tlc -workers 1 -metadir %s -config %s MC_UtilCheck.tla 2>&1' % (V, md, cfg), shell=True, env=env, capture_output=True, text=True)
+    r = subprocess.run('cd %s/spec && timeout 2400 ../tools/tlc.sh -workers 1 -metadir %s -config %s MC_UtilCheck.tla 2>&1' % (V, md, cfg), shell=True, env=env, capture_output=True, text=True)
     shutil.rmtree(md, ignore_errors=True)
     out, n = [], 0
     for m in re.finditer(r'<<"V", (\d+), (TRUE|FALSE)>>', r.stdout):
@@ -340,7 +363,7 @@ def run_c20(prop, run, outdir, bins, seed, V, REPO):
         open(cfg, 'w').write('CONSTANTS\n NThreads = %d\n MaxCalls = %d\n Admitted = %s\n Emit = %s\nINIT Init\nNEXT Next\nINVARIANTS OnlyErrorRaces NonInterference\nCHECK_DEADLOCK FALSE\n'
                              % (nthreads, maxcalls, admitted, 'TRUE' if emit else 'FALSE'))
         md = os.path.join(outdir, 'md-' + name)
-        r = subprocess.run('cd %s/spec && timeout 900 tlc -workers 16 -metadir %s -config %s Threads.tla 2>&1' % (V, md, cfg), shell=True, capture_output=True, text=True)
+        r = subprocess.run('cd %s/spec && timeout 900 ../tools/tlc.sh -workers 16 -metadir %s -config %s Threads.tla 2>&1' % (V, md, cfg), shell=True, capture_output=True, text=True)
         shutil.rmtree(md, ignore_errors=True)
         open(os.path.join(outdir, name + '.tlc.out'), 'w').write(r.stdout)
         return r.stdout
@@ -461,7 +484,7 @@ def run_tracetree(prop, run, outdir, bins, seed, V, REPO):
     verdict = None
     for attempt in range(2):       # a rejection is reported only if a second validation repeats it
         md = os.path.join(outdir, 'md-' + run['name'])
-        t = subprocess.run('cd %s/spec && timeout 1800 tlc -workers 1 -metadir %s -config %s Trace_Tree.tla 2>&1' % (V, md, cfg), shell=True, capture_output=True, text=True, env=dict(os.environ, TRACE=trace))
+        t = subprocess.run('cd %s/spec && timeout 1800 ../tools/tlc.sh -workers 1 -metadir %s -config %s Trace_Tree.tla 2>&1' % (V, md, cfg), shell=True, capture_output=True, text=True, env=dict(os.environ, TRACE=trace))
         shutil.rmtree(md, ignore_errors=True)
         open(os.path.join(outdir, run['name'] + '.tlc.out'), 'w').write(t.stdout)
         m = re.search(r'<<"TRACE-(ACCEPTED|REJECTED)", (\d+)>>', t.stdout)
